@@ -623,53 +623,149 @@ theorem good_union (ts : Tys) (tag : Nat) (inner : Val) (m : Ty) (e : Bool)
     · intro h
       simp [Ty.isUnion] at h
 
+theorem decoP_cases (t : Ty) : decoP t false = [] ∨ decoP t false = [.cast (tyAst t)] := by
+  unfold decoP
+  split
+  · exact Or.inl rfl
+  · split
+    · exact Or.inl rfl
+    · exact Or.inr rfl
+
+/-- the inner value of an error value (written with `decorate = false`) read under its type. -/
+theorem error_inner (u : Ty) (v' : Val) (pi : Bool) (fst : FState) (a0 : AState)
+    (hpu : plainTy u = true) (hwu : wfTy u = true) (hnn : v'.isNull = false) (hvi : wfVal u v' = true)
+    (hbe : bareEmpty v' = false) (hI : GoodV u v' false) :
+    ∃ any ds0, fmtValue fst u v' false pi false false = (fst, any, ds0) ∧ (∀ d ∈ ds0, GoodDeco d) ∧
+      convertValue a0 (mkVal any ds0) (some u) = .ok (a0, (u, strip v')) ∧
+      (implied u = true → convertValue a0 (mkVal any ds0) none = .ok (a0, (u, strip v'))) := by
+  obtain ⟨any, ds, hf, hd, hA, hB⟩ := hI pi fst a0
+  have hsplit := fmt_deco_split fst u v' pi hpu hvi hnn hbe
+  rw [hf] at hsplit
+  generalize hr : fmtValue fst u v' false pi false false = r at hsplit
+  obtain ⟨r1, r2, ds0⟩ := r
+  simp only [Prod.mk.injEq] at hsplit
+  obtain ⟨h1, h2, h3⟩ := hsplit
+  subst h1 h2
+  have hd0 : ∀ d ∈ ds0, GoodDeco d := fun d hx => hd d (by rw [h3]; exact List.mem_append_left _ hx)
+  have hexp : expA u v' false = (u, strip v') := by simp [expA]
+  rw [hexp] at hA
+  have hT := convertType_plain a0 u hpu hwu
+  refine ⟨_, ds0, rfl, hd0, ?_, ?_⟩
+  · by_cases hun : u.isUnion = true
+    · obtain ⟨ts, rfl⟩ : ∃ ts, u = .union ts := by cases u <;> simp_all [Ty.isUnion]
+      have hdp : decoP (.union ts) false = [.cast (tyAst (.union ts))] := by simp [decoP, implied, selfDescribing]
+      rw [hdp] at h3
+      rw [h3, mkVal_append_cast _ _ ds0 (fun x hx => (hd0 x hx).isCast)] at hA
+      have hu : unionMembers (Ty.union ts).under = some ts := rfl
+      simp only [convertValue, preDefs_mkVal a0 _ ds0 hd0, pure, Except.pure, bind, Except.bind, hT, castStep,
+        typeCheck, hu] at hA
+      rw [convertValue_union_parent a0 ts _ (mkVal_not_def _ ds0 hd0)]
+      cases hy : convertValue a0 (mkVal any ds0) none with
+      | error e => simp [hy] at hA
+      | ok r =>
+        obtain ⟨s1, tv⟩ := r
+        simp only [hy] at hA
+        cases hcu : convertUnion tv ts (.union ts) with
+        | error e => simp [hcu] at hA
+        | ok r2 =>
+          simp only [hcu, Except.ok.injEq, Prod.mk.injEq] at hA
+          simp [Except.bind, hcu, Except.map, hA.1, hA.2]
+    · have hun' : u.isUnion = false := by simpa using hun
+      have hB' := hB (Or.inl hun')
+      rcases decoP_cases u with hdp | hdp
+      · rw [hdp, List.append_nil] at h3; subst h3; exact hB'
+      · rw [hdp] at h3
+        rw [h3, mkVal_append_cast _ _ ds0 (fun x hx => (hd0 x hx).isCast),
+          conv_cast a0 _ _ u (some u) (preDefs_mkVal a0 _ ds0 hd0) hT
+            (by rw [under_plain u hpu]; exact unionMembers_notUnion u hun') (Or.inr rfl)] at hB'
+        exact hB'
+  · intro hi
+    have hdp : decoP u false = [] := by simp [decoP, hi]
+    rw [hdp, List.append_nil] at h3; subst h3; exact hA
+
+theorem good_error (u : Ty) (v' : Val) (e : Bool) (hp : plainTy (.error u) = true) (hw : wfTy (.error u) = true)
+    (hnn : v'.isNull = false) (hvi : wfVal u v' = true) (hbe : bareEmpty v' = false)
+    (hI : GoodV u v' false) : GoodV (.error u) (.error v') e := by
+  intro pi fst a0
+  have hpu : plainTy u = true := by simpa [plainTy] using hp
+  have hwu : wfTy u = true := by simpa [wfTy] using hw
+  obtain ⟨any, ds0, hf, hd0, hB0, hA0⟩ := error_inner u v' pi fst a0 hpu hwu hnn hvi hbe hI
+  have hT := convertType_plain a0 (.error u) hp hw
+  have hu : unionMembers (Ty.error u).under = none := rfl
+  have hexp : expA (.error u) (.error v') e = (.error u, .error (strip v')) := by
+    simp [expA, Ty.isUnion, strip]
+  have hstrip : strip (.error v') = .error (strip v') := by simp [strip]
+  have hcast : convertAny a0 (.error (mkVal any ds0)) (some (.error u)) = .ok (a0, (.error u, .error (strip v'))) := by
+    simp [convertAny, Ty.under, hB0, bind, Except.bind, pure, Except.pure]
+  by_cases hi : implied u = true
+  · have hdp : decoP (.error u) false = [] := by simp [decoP, implied, hi]
+    have hfmt : fmtValue fst (.error u) (.error v') false pi true e = (fst, .error (mkVal any ds0), []) := by
+      simp [fmtValue, hasName_plain fst _ hp, hf, finish, decorateM_plain fst _ false hp, hdp]
+    refine ⟨_, _, hfmt, by simp, ?_, ?_⟩
+    · rw [hexp, mkVal_nil]
+      simp [convertValue, viaUnion, convertAny, hA0 hi, bind, Except.bind, pure, Except.pure]
+    · intro _
+      rw [hstrip, mkVal_nil, conv_implied_some a0 _ _ hu]; exact hcast
+  · have hi' : implied u = false := by simpa using hi
+    have hdp : decoP (.error u) false = [.cast (tyAst (.error u))] := by
+      simp [decoP, implied, selfDescribing, hi']
+    have hfmt : fmtValue fst (.error u) (.error v') false pi true e =
+        (fst, .error (mkVal any ds0), [.cast (tyAst (.error u))]) := by
+      simp [fmtValue, hasName_plain fst _ hp, hf, finish, decorateM_plain fst _ false hp, hdp]
+    refine ⟨_, _, hfmt, by intro d hd; simp at hd; subst hd; exact ⟨_, hp, hw, rfl⟩, ?_, ?_⟩
+    · rw [hexp, mkVal_cast1, conv_cast_implied a0 _ _ _ none hT hu (Or.inl rfl)]; exact hcast
+    · intro _
+      rw [hstrip, mkVal_cast1, conv_cast_implied a0 _ _ _ (some _) hT hu (Or.inr rfl)]; exact hcast
+
 mutual
 /-- every well-formed value of a plain type formats to syntax that analyses back to it. -/
 theorem goodV_all : (v : Val) → ∀ (t : Ty) (e : Bool), plainTy t = true → wfTy t = true → wfVal t v = true →
-    GoodV t v e
-  | .null, t, e, hp, hw, _ => good_null t e hp hw
-  | .prim text, t, e, _, _, hv => by
+    errOK v = true → GoodV t v e
+  | .null, t, e, hp, hw, _, _ => good_null t e hp hw
+  | .prim text, t, e, _, _, hv, _ => by
     cases t with
     | prim id => exact good_prim id text e hv
     | _ => simp [wfVal] at hv
-  | .typeval ty, t, e, _, _, hv => by
+  | .typeval ty, t, e, _, _, hv, _ => by
     cases t with
     | prim id => exact good_typeval id ty e hv
     | _ => simp [wfVal] at hv
-  | .enum sel, t, e, _, hw, hv => by
+  | .enum sel, t, e, _, hw, hv, _ => by
     cases t with
     | enum syms => exact good_enum syms sel e hw hv
     | _ => simp [wfVal] at hv
-  | .record vs, t, e, hp, hw, hv => by
+  | .record vs, t, e, hp, hw, hv, he => by
     cases t with
     | record fs =>
       have hp' : plainFields fs = true := by simpa [plainTy] using hp
       have hw' : wfFields fs = true := by
         simp only [wfTy, Bool.and_eq_true] at hw; exact hw.1
       have hv' : wfVals fs vs = true := by simpa [wfVal] using hv
-      exact good_record fs vs e hp hw hv (goodFields_all vs fs hp' hw' hv')
+      exact good_record fs vs e hp hw hv (goodFields_all vs fs hp' hw' hv' (by simpa [errOK] using he))
     | _ => simp [wfVal] at hv
-  | .array vs, t, e, hp, hw, hv => by
+  | .array vs, t, e, hp, hw, hv, he => by
     cases t with
     | array et =>
       exact good_array et vs e hp hw hv
-        (goodElems_all vs et (by simpa [plainTy] using hp) (by simpa [wfTy] using hw) (by simpa [wfVal] using hv))
+        (goodElems_all vs et (by simpa [plainTy] using hp) (by simpa [wfTy] using hw) (by simpa [wfVal] using hv)
+          (by simpa [errOK] using he))
     | _ => simp [wfVal] at hv
-  | .set vs, t, e, hp, hw, hv => by
+  | .set vs, t, e, hp, hw, hv, he => by
     cases t with
     | set et =>
       exact good_set et vs e hp hw hv
-        (goodElems_all vs et (by simpa [plainTy] using hp) (by simpa [wfTy] using hw) (by simpa [wfVal] using hv))
+        (goodElems_all vs et (by simpa [plainTy] using hp) (by simpa [wfTy] using hw) (by simpa [wfVal] using hv)
+          (by simpa [errOK] using he))
     | _ => simp [wfVal] at hv
-  | .map es, t, e, hp, hw, hv => by
+  | .map es, t, e, hp, hw, hv, he => by
     cases t with
     | map kt vt =>
       have hp' : plainTy kt = true ∧ plainTy vt = true := by simpa [plainTy] using hp
       have hw' : wfTy kt = true ∧ wfTy vt = true := by simpa [wfTy] using hw
       exact good_map kt vt es e hp hw hv
-        (goodEntries_all es kt vt hp'.1 hp'.2 hw'.1 hw'.2 (by simpa [wfVal] using hv))
+        (goodEntries_all es kt vt hp'.1 hp'.2 hw'.1 hw'.2 (by simpa [wfVal] using hv) (by simpa [errOK] using he))
     | _ => simp [wfVal] at hv
-  | .union tag inner, t, e, hp, hw, hv => by
+  | .union tag inner, t, e, hp, hw, hv, he => by
     cases t with
     | union ts =>
       simp only [wfVal, Bool.and_eq_true, bne_iff_ne, ne_eq] at hv
@@ -679,44 +775,53 @@ theorem goodV_all : (v : Val) → ∀ (t : Ty) (e : Bool), plainTy t = true → 
         simp only [hg] at hv
         have hpm := plainTys_get ts tag m (by simpa [plainTy] using hp) hg
         have hwm := wfTys_get ts tag m (by simp only [wfTy, Bool.and_eq_true] at hw; exact hw.1.1) hg
-        exact good_union ts tag inner m e hp hw hg hv.1 hv.2 (goodV_all inner m false hpm hwm hv.2)
+        exact good_union ts tag inner m e hp hw hg hv.1 hv.2
+          (goodV_all inner m false hpm hwm hv.2 (by simpa [errOK] using he))
     | _ => simp [wfVal] at hv
-  | .error v, t, e, hp, _, hv => by
+  | .error v, t, e, hp, hw, hv, he => by
     cases t with
-    | error u => simp [plainTy] at hp
+    | error u =>
+      simp only [wfVal, Bool.and_eq_true, bne_iff_ne, ne_eq] at hv
+      simp only [errOK, Bool.and_eq_true, Bool.not_eq_true'] at he
+      have hnn : v.isNull = false := by cases v <;> simp_all [Val.isNull]
+      exact good_error u v e hp hw hnn hv.2 he.1
+        (goodV_all v u false (by simpa [plainTy] using hp) (by simpa [wfTy] using hw) hv.2 he.2)
     | _ => simp [wfVal] at hv
-  | .named v, t, e, hp, _, hv => by
+  | .named v, t, e, hp, _, hv, _ => by
     cases t with
     | named n u => simp [plainTy] at hp
     | _ => simp [wfVal] at hv
 theorem goodFields_all : (vs : Vals) → ∀ (fs : Fields), plainFields fs = true → wfFields fs = true →
-    wfVals fs vs = true → GoodFields fs vs
-  | .nil, fs, _, _, hv => by
+    wfVals fs vs = true → errOKs vs = true → GoodFields fs vs
+  | .nil, fs, _, _, hv, _ => by
     cases fs with
     | nil => exact goodFields_nil
     | cons _ _ _ => simp [wfVals] at hv
-  | .cons v vr, fs, hp, hw, hv => by
+  | .cons v vr, fs, hp, hw, hv, he => by
+    simp only [errOKs, Bool.and_eq_true] at he
     cases fs with
     | nil => simp [wfVals] at hv
     | cons n t fr =>
       simp only [plainFields, Bool.and_eq_true, Bool.not_eq_true'] at hp
       simp only [wfFields, Bool.and_eq_true] at hw
       simp only [wfVals, Bool.and_eq_true] at hv
-      exact goodFields_cons n t fr v vr hp.1.2 (goodV_all v t false hp.1.1 hw.1 hv.1)
-        (goodFields_all vr fr hp.2 hw.2 hv.2)
+      exact goodFields_cons n t fr v vr hp.1.2 (goodV_all v t false hp.1.1 hw.1 hv.1 he.1)
+        (goodFields_all vr fr hp.2 hw.2 hv.2 he.2)
 theorem goodElems_all : (vs : Vals) → ∀ (et : Ty), plainTy et = true → wfTy et = true →
-    wfElems et vs = true → GoodElems et vs
-  | .nil, et, _, _, _ => goodElems_nil et
-  | .cons v vr, et, hp, hw, hv => by
+    wfElems et vs = true → errOKs vs = true → GoodElems et vs
+  | .nil, et, _, _, _, _ => goodElems_nil et
+  | .cons v vr, et, hp, hw, hv, he => by
     simp only [wfElems, Bool.and_eq_true] at hv
-    exact goodElems_cons et v vr (goodV_all v et true hp hw hv.1) (goodElems_all vr et hp hw hv.2)
+    simp only [errOKs, Bool.and_eq_true] at he
+    exact goodElems_cons et v vr (goodV_all v et true hp hw hv.1 he.1) (goodElems_all vr et hp hw hv.2 he.2)
 theorem goodEntries_all : (es : Entries) → ∀ (kt vt : Ty), plainTy kt = true → plainTy vt = true →
-    wfTy kt = true → wfTy vt = true → wfEntries kt vt es = true → GoodEntries kt vt es
-  | .nil, kt, vt, _, _, _, _, _ => goodEntries_nil kt vt
-  | .cons k v r, kt, vt, hpk, hpv, hwk, hwv, hv => by
+    wfTy kt = true → wfTy vt = true → wfEntries kt vt es = true → errOKe es = true → GoodEntries kt vt es
+  | .nil, kt, vt, _, _, _, _, _, _ => goodEntries_nil kt vt
+  | .cons k v r, kt, vt, hpk, hpv, hwk, hwv, hv, he => by
     simp only [wfEntries, Bool.and_eq_true] at hv
-    exact goodEntries_cons kt vt k v r (goodV_all k kt true hpk hwk hv.1.1) (goodV_all v vt true hpv hwv hv.1.2)
-      (goodEntries_all r kt vt hpk hpv hwk hwv hv.2)
+    simp only [errOKe, Bool.and_eq_true] at he
+    exact goodEntries_cons kt vt k v r (goodV_all k kt true hpk hwk hv.1.1 he.1.1)
+      (goodV_all v vt true hpv hwv hv.1.2 he.1.2) (goodEntries_all r kt vt hpk hpv hwk hwv hv.2 he.2)
 end
 
 end Zed.Zson
